@@ -990,6 +990,13 @@ func (m *Machine) execX(o *Op) (xout string, result any, hasResult bool) {
 				}
 			}
 		}
+		if o.Name == "XFormat" && o.I >= 0 && o.I <= 10 && json.Valid([]byte(s)) {
+			// whatever the member order: the text is its own canonical layout (compacted and indented again it is itself)
+			var c, ind bytes.Buffer
+			if json.Compact(&c, []byte(s)) == nil && json.Indent(&ind, c.Bytes(), "", strings.Repeat(" ", int(o.I))) == nil && ind.String() != s {
+				m.fail("FormatString(%d) is not canonically laid out: %q, its canonical layout is %q", o.I, s, ind.String())
+			}
+		}
 		v, ok := refDecode(s)
 		if !ok {
 			m.fail("%s returned a text that encoding/json does not decode: %q", o.Name, s)
